@@ -114,8 +114,9 @@ Print Assumptions C09_judge_sound.
       panicking on an otherwise conforming observation of a text shorter than the number of errors shown. *)
 Theorem C09_judge_kf_narrow : forall text o id,
   judge_parse text o = v_kf id ->
-  (id = "mika-close-loop"%string /\ o = RHang /\ kf_mika_close text = true) \/
+  (id = "mika-close-loop"%string /\ (o = RHang \/ o = RAbort) /\ kf_mika_close text = true) \/
   (id = "exp-nesting"%string /\ o = RHang /\ kf_mika_close text = false /\ nest_threshold <= nest_depth text) \/
+  (id = "stack-overflow-prefix-run"%string /\ o = RAbort /\ kf_mika_close text = false /\ run_threshold <= max_prefix_run text) \/
   (id = "ebnf-todo-panic"%string /\ exists p, o = RParse p /\ po_tag p = TgPanic /\ po_same p = true /\ kf_ebnf text = true) \/
   (id = "fence-zero-range"%string /\ exists p, o = RParse p /\ po_tag p <> TgPanic /\ kf_fence_zero text = true /\
       existsb is_zero (po_causes p) = true /\ obs_corb text p true = true /\ flags_matchb text p = true) \/
@@ -171,6 +172,7 @@ Example C09_example_judge :
     = "(kf fmt-count-underflow)"%string /\
   run_line "((c09 ""\xe2\xb8\xa5"") (hang))" = "(kf mika-close-loop)"%string /\
   run_line "((c09 ""x := 1"") (hang))" = "(bad parser-did-not-return-within-budget ok-or-err)"%string /\
+  run_line "((c09 ""x := -1"") (abort -6))" = "(bad process-aborted ok-or-err)"%string /\
   run_line "((c09 ""x := 1"") (parse ok 1 (ranges ) 1 (linelens 6) (linewidths 6) (flags ) (info 0 7 1) (hook 5 (1 0 6 7) (5 6 7 7) (6 0 7 7) (7 0 7 7) (8 0 7 7))))"
     = "(ok tree)"%string /\
   run_line "((c09 ""x := 1"") (parse ok 1 (ranges ) 1 (linelens 6) (linewidths 6) (flags ) (info 0 7 1) (hook 2 (1 0 6 7) (8 3 3 7))))"
